@@ -12,20 +12,34 @@ import sys, os, numpy as np
 sys.path.insert(0, os.environ["REPLAY_REPO"])
 from oqupy.process_tensor import FileProcessTensor
 fn, crash_at = sys.argv[1], int(sys.argv[2])
-pt = FileProcessTensor("write", fn, hilbert_space_dimension=2, dt=0.1)
-point = 0
-def cp():
-    global point
-    if point == crash_at:
-        pt._f.flush()
-        os._exit(9)          # the writer dies here: no close(), no atexit handlers
-    point += 1
-cp()
-for k in range(3):
-    pt.set_mpo_tensor(k, np.ones((1, 1, 4, 4)) * (k + 1)); cp()
-for k in range(4):
-    pt.set_cap_tensor(k, np.ones((1,))); cp()
-pt.close()
+soft = len(sys.argv) > 3
+
+
+def main():
+    pt = FileProcessTensor("write", fn, hilbert_space_dimension=2, dt=0.1)
+    state = {"point": 0}
+
+    def cp():
+        if state["point"] == crash_at:
+            pt._f.flush()
+            if soft:
+                raise RuntimeError("the writer fails here (exception: finalisers and atexit handlers still run)")
+            os._exit(9)          # the writer dies here: no close(), no atexit handlers
+        state["point"] += 1
+    cp()
+    for k in range(3):
+        pt.set_mpo_tensor(k, np.ones((1, 1, 4, 4)) * (k + 1)); cp()
+    for k in range(4):
+        pt.set_cap_tensor(k, np.ones((1,))); cp()
+    pt.close()
+
+
+try:
+    main()
+except RuntimeError:
+    import gc
+    gc.collect()
+    sys.exit(3)
 '''
 
 
@@ -59,6 +73,16 @@ def file_protocol(inp):
             st = _open_status(fn)
             if st.startswith('silent'):
                 bad.append({'writer_killed_at_point': crash_at, 'reader': st})
+        # soft death: the writer raises (object finalisers run, interpreter exits normally)
+        for crash_at in range(0, 8):
+            fn = os.path.join(d, 'soft%d.h5' % crash_at)
+            subprocess.run([sys.executable, '-c', WRITER, fn, str(crash_at), 'soft'], env=dict(os.environ, REPLAY_REPO=repo),
+                           capture_output=True, timeout=120)
+            if not os.path.exists(fn):
+                continue
+            st = _open_status(fn)
+            if st.startswith('silent'):
+                bad.append({'writer_failed_with_exception_at_point': crash_at, 'reader': st})
         # clean close
         fn = os.path.join(d, 'clean.h5')
         subprocess.run([sys.executable, '-c', WRITER, fn, '99'], env=dict(os.environ, REPLAY_REPO=repo), capture_output=True, timeout=120)
